@@ -201,14 +201,20 @@ def afqmc(
             ham, ham_data, x, y, propagator, z, trial, wave_data
         )
 
-    prop_data_tangent = {}
-    for x in prop_data:
-        if isinstance(prop_data[x], list):
-            prop_data_tangent[x] = [np.zeros_like(y) for y in prop_data[x]]
-        elif prop_data[x].dtype == "uint32":
-            prop_data_tangent[x] = np.zeros(prop_data[x].shape, dtype=dtypes.float0)
-        else:
-            prop_data_tangent[x] = np.zeros_like(prop_data[x])
+    def zero_tangent(prop_data):
+        # built for every block: the sampler adds entries to prop_data in its first call
+        prop_data_tangent = {}
+        for x in prop_data:
+            if isinstance(prop_data[x], list):
+                prop_data_tangent[x] = [np.zeros_like(y) for y in prop_data[x]]
+            elif prop_data[x].dtype == "uint32":
+                prop_data_tangent[x] = np.zeros(
+                    prop_data[x].shape, dtype=dtypes.float0
+                )
+            else:
+                prop_data_tangent[x] = np.zeros_like(prop_data[x])
+        return prop_data_tangent
+
     block_rdm1_n = np.zeros_like(ham_data["h1"])
     block_rdm2_n = None
     if options["ad_mode"] == "2rdm":
@@ -221,7 +227,7 @@ def afqmc(
             block_energy_n, block_observable_n, prop_data = jvp(
                 propagate_phaseless_wrapper,
                 (coupling, observable_op, prop_data),
-                (1.0, 0.0 * observable_op, prop_data_tangent),
+                (1.0, 0.0 * observable_op, zero_tangent(prop_data)),
                 has_aux=True,
             )
             if np.isnan(block_observable_n) or np.isinf(block_observable_n):
